@@ -66,6 +66,9 @@ package streams
 
 //@ func (*Stdin).GetDataType [C02 C19 C32]
 //@   requires stdin != nil && stdin.ctx != nil
+// a reader never declares: none of its critical sections changes the data type (the generic type `*`
+// is only reported, never stored)
+//@   at unlock #* assert stdin.dataType == old(stdin.dataType)
 //@   ensures result != ""
 //@   ensures imp(old(stdin.dataType) != "", result == old(stdin.dataType))
 
@@ -88,3 +91,11 @@ package streams
 //@   requires stdin != nil
 //@   at call (*Stdin).Write#1 assert arg0 == stdin && len(arg1) == i && (rErr == nil || rErr == io.EOF)
 //@   at return #4 assert result1 == nil && rErr == io.EOF && wErr == nil && result == old@loop1(total) + i
+
+// A tee declares the type on both of its streams through their own SetDataType (first declaration wins,
+// empty/null ignored, under each stream's lock) - it never writes a dataType field itself.
+//@ func (*Tee).SetDataType [C02]
+//@   check none
+//@   at store dataType#* assert false
+//@   at call (*Stdin).SetDataType#* assert arg1 == dt
+//@   ensures called("(*Stdin).SetDataType")
